@@ -1468,15 +1468,18 @@ class Simulation:
                 delattr(self, name)
 
         # Get gradient from weighted residual `vector`.
-        jtvec = self.gradient
+        try:
+            jtvec = self.gradient
 
-        # Restore the residual and reset the gradient again, so that the
-        # result for `vector` is not taken for the gradient of the misfit.
-        self.data.residual[...] = residual
-        self._gradient = None
-        for name in ['_dict_bfield', '_dict_bfield_info']:
-            if hasattr(self, name):
-                delattr(self, name)
+        # Restore the residual and reset the gradient again (also if the
+        # computation fails), so that the result for `vector` is not taken
+        # for the gradient of the misfit.
+        finally:
+            self.data.residual[...] = residual
+            self._gradient = None
+            for name in ['_dict_bfield', '_dict_bfield_info']:
+                if hasattr(self, name):
+                    delattr(self, name)
 
         return jtvec
 
